@@ -18,7 +18,7 @@ import json as _json
 _claimed = set(k for k, v in _json.load(open(os.path.join(os.path.dirname(_here), 'claims.json'))).items() if v.get('claimed'))
 _covered = []
 # how many queries of each other property are re-run here (quick, thorough)
-_PER = {'quick': 3, 'thorough': 12}
+_PER = {'quick': 1, 'thorough': 4}
 for _f in sorted(glob.glob(os.path.join(_here, '*.py'))):
     _n = os.path.basename(_f)[:-3]
     if _n in ('C20', 'C13'): continue
@@ -39,9 +39,10 @@ for _f in sorted(glob.glob(os.path.join(_here, '*.py'))):
 CHECKS = {
  'C20': {
   'level': 'model_checking',
+  'val_runs': {'quick': 2, 'thorough': 6},   # every harness is validated with 12/40 runs in its own property's check
   'pre_cmd': 'sh engine/tests/run.sh',     # engine regression tests: 22 tiny C programs with known verdicts (detectors, merges, pointer provenance)
   'explanation': 'Memory-safety and undefined-behaviour obligations checked by the symbolic engine on the real code of the other properties\' harnesses (property assertions disabled with -DVS_NO_PROPERTY), i.e. on every automaton / history / diagram of those universes: null, dangling-stack, freed and out-of-bounds loads and stores; free of non-heap or interior pointers; double free; new/delete[]/free mismatch; division by zero; shift >= width; signed overflow of nsw arithmetic; a branch, switch, address or size that depends on uninitialised memory; abort/terminate/failed libstdc++ assertion; unexpected exception; reaching LLVM unreachable; indirect call to a non-function.  A self-test harness plants a heap overflow, a use after free, a branch on uninitialised memory and a double free behind input-dependent conditions; each must be reported and must reproduce on the native ASan/UBSan (valgrind for the uninitialised read) twin.  Harnesses re-run: ' + ', '.join(_covered),
-  'bounds': {'quick': 'up to 3 queries per harness of every other claimed property (their quick universes)', 'thorough': 'up to 12 queries per harness (their thorough universes)'},
+  'bounds': {'quick': 'one query per harness of every other claimed property (from their quick universes)', 'thorough': 'up to 4 queries per harness (their thorough universes)'},
   'outside': 'code not reached by any harness (per-file list in DESIGN.md); behaviours that need a particular malloc address pattern, container reallocation order or rehash beyond the sizes reached; bit-precise definedness; data races; allocation failure',
   'assumptions': ['the uninitialised-memory check is value-based: a value that provably does not influence the branch/address is not reported'],
   'harnesses': _harn,
